@@ -250,9 +250,9 @@ func init() {
 		Outside: []string{"converter attach/detach (external processes)", "histories longer than 3 (4) calls", "concurrent API callers"},
 	}
 
-	svc := HarnessSpec{Pkg: mg, Func: "ZZ_SVC_Scenarios", Quick: &Tier{Params: map[string]int{"realjobs": 1, "scenarios": 12}, Samples: 12},
-		Thorough: &Tier{Params: map[string]int{"realjobs": 1, "scenarios": 12, "payloadmax": 6, "thresholdmax": 12}, Samples: 24},
-		Bounds: "twelve job-level schedules: sequential imports with merge; queued imports; an import completing while a merge is in flight; an import extending a stream while a tagging job of a data tag is in flight; an import that creates no index followed by a merge; a capture arriving out of chronological order (stream reset); a referenced tag edited (to a definition with other members / with no members) while the job of the tag referencing it is in flight; a view first used before the first import; a tag deleted, re-added and referenced while its job is in flight; a tag deleted while its job is in flight, then a merge; a stream marked while the job of a tag referencing the mark is in flight; a view held across later imports and a merge. Payload sizes of the first flow and the threshold of the data tag are symbolic"}
+	svc := HarnessSpec{Pkg: mg, Func: "ZZ_SVC_Scenarios", Quick: &Tier{Params: map[string]int{"realjobs": 1, "scenarios": 13}, Samples: 13},
+		Thorough: &Tier{Params: map[string]int{"realjobs": 1, "scenarios": 13, "payloadmax": 6, "thresholdmax": 12}, Samples: 26},
+		Bounds: "thirteen job-level schedules: sequential imports with merge; queued imports; an import completing while a merge is in flight; an import extending a stream while a tagging job of a data tag is in flight; an import that creates no index followed by a merge; a capture arriving out of chronological order (stream reset); a referenced tag edited (to a definition with other members / with no members) while the job of the tag referencing it is in flight; a view first used before the first import; a tag deleted, re-added and referenced while its job is in flight; a tag deleted while its job is in flight, then a merge; a stream marked while the job of a tag referencing the mark is in flight; a view held across later imports and a merge; a view taken while the served list has spare capacity, then an import landing in the spare slot and a merge of the newer files only (offset 1) rewriting the list in place. Payload sizes of the first flow and the threshold of the data tag are symbolic"}
 	svcAssume := []string{"Manager constructed in-package as New() does (no watchers, converters, stored state); real service loop, real import/tagging/merge jobs and completion closures; goroutines under the engine's cooperative scheduler", "engine: Builder.FromPcap (cgo libpcap) replaced by a scripted importer that writes the index with the real Writer; natively the real importer reads generated capture files", "interleavings are sequenced by the harness at job granularity (the in-flight job's snapshot is taken by hand exactly as the starter does), so the schedule replays natively"}
 	svcOut := []string{"interleavings below job granularity", "converter jobs", "more than 4 captures"}
 	svcSub := HarnessSpec{Pkg: mg, Func: "ZZ_SVC_Scenarios", Desc: "with a tag whose definition has a sub-query", Quick: &Tier{Params: map[string]int{"realjobs": 1, "scenarios": 2, "subtag": 1}, Samples: 4},
